@@ -127,4 +127,17 @@ PLANS = {
   'bound': {'quick': 'AES len<=300 (+2048, 4097); mh l1<=1040 (every 4th l2); rolling w+70; GCM streaming sum<=40; manager exploration d<=1', 'thorough': 'thorough grids'},
   'deadline': {'quick': 240, 'thorough': 2700}, 'assumptions': A_COMMON + ["internal fields are compared only through behaviour (e.g. GCM init stores an undefined xmm2^xmm3 into partial_block_enc_key, which is rewritten before it is read)"],
  },
+ 'C12': {
+  'level': 'model_checking',
+  'steps': [dict(e3('gcm', 8, 16), args=['--what=gcm', '--trace-isa']), dict(e3('xts', 4, 8), args=['--what=xts', '--trace-isa']), dict(e3('cbc', 2, 4), args=['--what=cbc', '--trace-isa']), dict(e3('keyexp', 1, 1), args=['--what=keyexp', '--trace-isa']),
+            dict(e2('mh1', 2, 2), args=['--what=mh1', '--trace-isa']), dict(e2('mh256', 2, 2), args=['--what=mh256', '--trace-isa']), dict(e2('mur', 2, 2), args=['--what=mur', '--trace-isa']),
+            dict(e2('roll', 3, 3), args=['--what=roll', '--trace-isa']), dict(e2('gcms', 16, 16), args=['--what=gcms', '--trace-isa']),
+            dict(e1('explore', 28), args=['--mode=explore', '--trace-isa']),
+            {'engine': 'e6_dispatch', 'variant': 'V', 'args': [], 'shards': 16, 'phase': 1}],
+  'eval_stats': ['transitions'], 'distinct_key': 'bindings', 'state_stats': ['states'], 'transition_stats': ['transitions'], 'trace_stats': ['transitions'],
+  'rule': "phase 0 measures, by trap-flag single-stepping of every family function on representative shapes (every loop and tail class), the instruction-set classes each dispatch candidate really executes (raw-byte EVEX/VEX/legacy decoding of executed addresses + objdump mnemonics; unknown mnemonics add no requirement). Phase 1 enumerates all architecturally consistent assignments of the 22 CPUID leaf 1/7 and XCR0 bits the resolvers test (SSE4.1, SSE4.2, OSXSAVE, AVX, Avoton model, AVX2, AVX512 F/DQ/CD/BW/VL, SHA, VBMI2, GFNI, VAES, VPCLMULQDQ, VNNI, BITALG, VPOPCNTDQ, XCR0 SSE/YMM/ZMM) and, for each, runs the real <entry>_dispatch_init of all 64 dispatched entry points under a virtual CPUID/XGETBV (nasm -P pre-include, no source change); oracle: measured classes of the bound target subset of the available classes, one family per shared object, slot points at the start of an implementation, XGETBV never executed with OSXSAVE=0; the virtualisation is bound to reality by requiring identical bindings for the host's values served virtually and by the real instructions",
+  'bound': {'quick': 'all consistent configurations (exhaustive); ISA measurement on the reduced trace shape set', 'thorough': 'same'},
+  'deadline': {'quick': 400, 'thorough': 2000}, 'exhaustive': True,
+  'assumptions': A_COMMON + ["required-ISA sets are measured on executed paths only (under-approximation: never a false alarm)", "AES-NI, PCLMULQDQ, SSSE3, POPCNT, BMI1/2 are not among the bits the ladders test and are outside the property's quantifier", "SSE4.1/4.2 are the documented minimum of the AES entry points, which have no base fallback"],
+ },
 }
